@@ -60,7 +60,7 @@ def setup(tier):
     from pyiga import compile as pc
     base = os.environ.get("XDG_CACHE_HOME", "/tmp")
     os.makedirs(base, exist_ok=True)
-    jobs = [(dim, name) for dim in (1, 2) for name in FORMS]
+    jobs = [(dim, name) for dim in ((1, 2) if tier == "quick" else (1, 2, 3)) for name in FORMS]
     k = int(os.environ.get("VERIF_SHARD", "0")) % len(jobs)
     for dim, name in jobs[k:] + jobs[:k]:
         with open(os.path.join(base, "c03-%s-%d.lock" % (name, dim)), "w") as lk:
@@ -87,6 +87,10 @@ def check_hassemble(spec, ctx):
     L = ref.trimmed_levels()
     dim = ref.dim
     name = spec["form"]
+    NL = int(np.prod(ref.ndofs(L - 1)))
+    QL = int(np.prod([n * (p + 1) for n, (t, p) in zip(ref.ncells(L - 1), ref.levels[L - 1])]))
+    if QL * NL * (NL if form_spec(name, dim)["arity"] == 2 else 1) > 4e7:
+        raise Skip("reference too large")
     fs = _fill(form_spec(name, dim), spec)
     fs["kvs"] = [spec["kvs"]]
     built = gf.build_data(fs)
@@ -163,9 +167,19 @@ def check_hassemble(spec, ctx):
 
 @st.composite
 def strat_hassemble(draw, tier="quick"):
-    dims = (1, 2)
-    spec = draw(gh.history(dims=dims, pmin=1, pmax=2, n0max=2, max_steps=3, max_levels=3, disparities=(None, 1, 2),
-                           bdspecs_mode="any", containers=("set",)))
+    dims = (1, 2) if tier == "quick" else (1, 1, 2, 2, 3)
+    spec = draw(gh.history(dims=dims, pmin=1, pmax=2, n0max=2, max_steps=3, max_levels=3 if tier == "quick" else 4,
+                           disparities=(None, 1, 2), bdspecs_mode="any", containers=("set",)))
+    if spec["dim"] == 3:
+        # keep the level-wise reference assembly affordable: p = 1, <= 3 levels, <= 2 coarse cells per direction
+        spec["max_levels"] = 3
+        for k in spec["kvs"]:
+            k["p"] = 1
+            k["mults"] = [1] * len(k["mults"])
+    elif spec["dim"] == 2 and spec["max_levels"] == 4:
+        for k in spec["kvs"]:
+            k["p"] = min(k["p"], 1 + (len(k["breaks"]) <= 2))
+            k["mults"] = [min(m, k["p"]) for m in k["mults"]]
     dim = spec["dim"]
     spec["form"] = draw(st.sampled_from(FORMS))
     spec["geo"] = draw(gg.geometry_map(dim, pmax=2, nmax=2, orient_preserving=True))
